@@ -20,6 +20,10 @@ type FRange struct {
 	NMax *float64 `json:"nmax,omitempty"`
 	DMin *int64   `json:"dmin,omitempty"`
 	DMax *int64   `json:"dmax,omitempty"`
+	// bounds that no int64 nanosecond count can hold (year 1000 / year 9999): every indexable
+	// date lies after the one and before the other
+	DMinFar bool `json:"dmin_year_1000,omitempty"`
+	DMaxFar bool `json:"dmax_year_9999,omitempty"`
 }
 
 type FReq struct {
@@ -54,6 +58,12 @@ func (f FReq) Bleve() *bleve.FacetRequest {
 			}
 			if r.DMax != nil {
 				b = time.Unix(0, *r.DMax).UTC()
+			}
+			if r.DMinFar {
+				a = time.Date(1000, 1, 1, 0, 0, 0, 0, time.UTC)
+			}
+			if r.DMaxFar {
+				b = time.Date(9999, 12, 31, 23, 59, 59, 0, time.UTC)
 			}
 			fr.AddDateTimeRange(r.Name, a, b)
 		}
@@ -259,6 +269,12 @@ func GenFacet(t *rapid.T, label string, name string, nums []float64, dates []tim
 			if r.DMin == nil || rapid.IntRange(0, 3).Draw(t, label+".openmax") != 0 {
 				v := rapid.SampledFrom(dates).Draw(t, label+".max").UnixNano()
 				r.DMax = &v
+			}
+			switch rapid.IntRange(0, 9).Draw(t, label+".far") {
+			case 0:
+				r.DMin, r.DMinFar = nil, true
+			case 1:
+				r.DMax, r.DMaxFar = nil, true
 			}
 			f.Ranges = append(f.Ranges, r)
 		}
